@@ -1073,6 +1073,32 @@ def install(prog):
             if e & 1: acc = acc * b_
             b_ = b_ * b_; e >>= 1
         return acc
+    def _wrapping(opname):
+        def f(I, a, c):
+            import re as _re
+            ty = _re.search(r'impl (\w+)', c).group(1); bits, sg = INT_TYPES[ty]
+            x = I.deref(a[0]); y = I.deref(a[1]) if len(a) > 1 else None
+            sym = is_sym(x) or is_sym(y)
+            if sym:
+                X = x if is_sym(x) else z3.BitVecVal(x, bits); Y = (y if is_sym(y) else z3.BitVecVal(y, bits)) if y is not None else None
+                if opname == 'add': return X + Y
+                if opname == 'sub': return X - Y
+                if opname == 'mul': return X * Y
+                if opname == 'neg': return -X
+                raise Unsupported('symbolic wrapping_' + opname)
+            if opname == 'add': r = x + y
+            elif opname == 'sub': r = x - y
+            elif opname == 'mul': r = x * y
+            elif opname == 'neg': r = -x
+            elif opname in ('div', 'rem'):
+                if y == 0: I.panic('attempt to divide by zero' if opname == 'div' else 'attempt to calculate the remainder with a divisor of zero')
+                q = abs(x) // abs(y) * (1 if (x < 0) == (y < 0) else -1)
+                r = q if opname == 'div' else x - q * y
+            return wrap(r, bits, sg)
+        return f
+    for _ty in ('i64', 'i32', 'u64', 'u32', 'usize', 'isize', 'u8', 'i8', 'u16', 'i16'):
+        for _op in ('add', 'sub', 'mul', 'neg', 'div', 'rem'):
+            prog.models.setdefault('<impl %s>::wrapping_%s' % (_ty, _op), _wrapping(_op))
     @M('<impl f64>::powf')
     def _(I, a, c):
         x = float(I.deref(a[0])); y = float(I.deref(a[1]))
